@@ -988,13 +988,69 @@ var ruleC4 = &Rule{
 				return true
 			})
 		}
-		if fd == nil {
-			return []Obl{{Key: "reader/service payload-type switch", Pos: "-", Status: Undecided, Msg: "no switch over the payload type found in the live code of reader/service"}}
-		}
-		info := p.TypesInfo
 		read := map[string]string{}
 		var swPos token.Pos
-		ast.Inspect(fd.Body, func(n ast.Node) bool {
+		famOf := func(t string) string {
+			t = strings.ToLower(t)
+			switch {
+			case strings.Contains(t, "zipkin") && !strings.Contains(t, "parseotlp"):
+				return "zipkin"
+			case strings.Contains(t, "otlp"):
+				return "otlp"
+			}
+			return ""
+		}
+		if fd == nil {
+			// the dispatch may be a table: a map from the payload-type constants to decoders, indexed by the stored payload type
+			for _, cfi := range c.Funcs(c.PkgsUnder("reader/service")) {
+				if isTestFile(c, cfi.Decl) || !c.LiveFunc(cfi) {
+					continue
+				}
+				cinfo := cfi.Pkg.TypesInfo
+				ast.Inspect(cfi.Decl.Body, func(n ast.Node) bool {
+					ix, ok := n.(*ast.IndexExpr)
+					if !ok || swPos != token.NoPos || !strings.Contains(strings.ToLower(c.normText(ix.Index)), "payloadtype") {
+						return true
+					}
+					tv, ok := cinfo.Types[ix.X]
+					if !ok {
+						return true
+					}
+					if _, isMap := tv.Type.Underlying().(*types.Map); !isMap {
+						return true
+					}
+					id, ok := ast.Unparen(ix.X).(*ast.Ident)
+					if !ok {
+						return true
+					}
+					lit := c.initLiteralOf(cfi.Pkg, cinfo.Uses[id])
+					if lit == nil {
+						return true
+					}
+					for _, el := range lit.Elts {
+						kv, ok := el.(*ast.KeyValueExpr)
+						if !ok {
+							continue
+						}
+						if ktv, ok := cinfo.Types[kv.Key]; ok && ktv.Value != nil {
+							read[ktv.Value.ExactString()] = famOf(c.normText(kv.Value))
+							swPos = ix.Pos()
+						}
+					}
+					return true
+				})
+			}
+			if swPos == token.NoPos {
+				return []Obl{{Key: "reader/service payload-type switch", Pos: "-", Status: Undecided, Msg: "no switch over the payload type (and no decoder table indexed by it) found in the live code of reader/service"}}
+			}
+		}
+		var info *types.Info
+		var body ast.Node = &ast.BlockStmt{}
+		if fd != nil {
+			info = p.TypesInfo
+			body = fd.Body
+		}
+		ast.Inspect(body, func(n ast.Node) bool {
 			sw, ok := n.(*ast.SwitchStmt)
 			if !ok || sw.Tag == nil || !strings.Contains(strings.ToLower(c.normText(sw.Tag)), "payloadtype") {
 				return true
@@ -1002,14 +1058,7 @@ var ruleC4 = &Rule{
 			swPos = sw.Pos()
 			for _, st := range sw.Body.List {
 				cc := st.(*ast.CaseClause)
-				fam := ""
-				t := strings.ToLower(c.stmtsText(cc.Body))
-				switch {
-				case strings.Contains(t, "zipkin") && !strings.Contains(t, "parseotlp"):
-					fam = "zipkin"
-				case strings.Contains(t, "otlp"):
-					fam = "otlp"
-				}
+				fam := famOf(c.stmtsText(cc.Body))
 				for _, e := range cc.List {
 					if tv, ok := info.Types[e]; ok && tv.Value != nil {
 						read[tv.Value.ExactString()] = fam
@@ -1329,4 +1378,34 @@ func (c *Ctx) insertServices() []insertService {
 		}
 	}
 	return out
+}
+
+// initLiteralOf: the composite literal a package-level variable of the package is initialised with.
+func (c *Ctx) initLiteralOf(p *packagesPackage, obj types.Object) *ast.CompositeLit {
+	if obj == nil {
+		return nil
+	}
+	for _, pk := range c.Pkgs {
+		if pk.Types != obj.Pkg() {
+			continue
+		}
+		for _, f := range pk.Syntax {
+			for _, d := range f.Decls {
+				gd, ok := d.(*ast.GenDecl)
+				if !ok || gd.Tok != token.VAR {
+					continue
+				}
+				for _, sp := range gd.Specs {
+					vs := sp.(*ast.ValueSpec)
+					for i, n := range vs.Names {
+						if pk.TypesInfo.Defs[n] == obj && i < len(vs.Values) {
+							lit, _ := ast.Unparen(vs.Values[i]).(*ast.CompositeLit)
+							return lit
+						}
+					}
+				}
+			}
+		}
+	}
+	return nil
 }
